@@ -374,7 +374,9 @@ func c18() int {
 			}
 		}
 	})
+	brokenBodies := c18BrokenBodies(rep, kinds)
 	cov := evid.Coverage{
+		"broken_body_requests": brokenBodies,
 		"evaluations":         int(evals),
 		"distinct_nontrivial": int(nontrivial),
 		"rule":                fmt.Sprintf("every sequence of length 1..%d over %d element kinds (3 create outcomes, add-metadata ok/missing target, revert, delete-metadata, unknown action, 2 malformed) x continueOnFailure x idempotency-key mode (none / distinct / equal kinds share a key) x entry point (ProcessBulk, POST /v2/{ledger}/_bulk), on a real Commander over memstore; a twin engine executing the same operations one by one predicts each outcome; non-trivial = at least one processed element fails", maxLen, len(kinds)),
@@ -394,4 +396,67 @@ func firstBadKind(seq []int, kinds []bulkKind, processed int) string {
 		}
 	}
 	return "none"
+}
+
+// c18BrokenBodies: request bodies that start as a well-formed bulk and stop being one (an upload cut short, a missing
+// bracket, a later element that is not an element) through the HTTP route: whatever the handler does with such a body, every
+// element it executed is owed a result - and executing nothing is the obvious way to owe nothing.
+func c18BrokenBodies(rep *evid.Reporter, kinds []bulkKind) int {
+	var good []bulkKind
+	for _, k := range kinds {
+		if k.Apply != nil {
+			good = append(good, k)
+		}
+	}
+	elem := func(k bulkKind) string {
+		return fmt.Sprintf(`{"action":%q,"data":%s}`, k.Action, k.Data)
+	}
+	n := 0
+	for _, a := range good {
+		for _, b := range good {
+			prefix := "[" + elem(a) + "," + elem(b)
+			for name, body := range map[string]string{
+				"cut-after-element":    prefix,
+				"cut-after-comma":      prefix + ",",
+				"cut-inside-element":   prefix + `,{"action":"CREATE_TRANSACTION","data":{"postings":[{"source":"wor`,
+				"element-not-object":   prefix + `,12]`,
+				"action-not-string":    prefix + `,{"action":12,"data":{}}]`,
+				"syntax-error-later":   prefix + `,{]`,
+				"first-element-broken": `[{"action":` + "," + elem(a) + `]`,
+			} {
+				for _, cof := range []bool{false, true} {
+					n++
+					eng := engineh.Start(seedStore(), nil)
+					bk := recbackend.New("l1")
+					bk.Ledgers["l1"].W = eng.Cmd
+					url := "/api/ledger/v2/l1/_bulk"
+					if cof {
+						url += "?continueOnFailure=true"
+					}
+					req := httptest.NewRequest("POST", url, strings.NewReader(body)).WithContext(eng.Ctx())
+					w := httptest.NewRecorder()
+					var panicked interface{}
+					func() {
+						defer func() { panicked = recover() }()
+						newRouter(bk, false).ServeHTTP(w, req)
+					}()
+					calls := len(bk.WriteCalls())
+					eng.Stop()
+					replay := map[string]interface{}{"engine": "bulk-broken-body", "body": body, "continueOnFailure": cof}
+					if panicked != nil {
+						rep.Violation("broken-body-panic:"+name, fmt.Sprintf("the handler panicked on a body that is %s: %v", name, panicked), replay)
+						continue
+					}
+					var resp struct {
+						Data []json.RawMessage `json:"data"`
+					}
+					_ = json.Unmarshal(w.Body.Bytes(), &resp)
+					if calls != len(resp.Data) {
+						rep.Violation("broken-body-results:"+name, fmt.Sprintf("body %s (%s, %s; continueOnFailure=%v): %d elements were executed, the answer (%d) carries %d results", name, a.Name, b.Name, cof, calls, w.Code, len(resp.Data)), replay)
+					}
+				}
+			}
+		}
+	}
+	return n
 }
